@@ -67,6 +67,8 @@ def gen(rng, t, k):
     if t == 'f64':
         return [0.0, -1.0, 1234.5678, 3e7, -0.0][k % 5]
     if t == 'string':
+        if rng.random() < 0.02:         # legal but long: the limit is in characters, the prefix counts UTF-8 bytes
+            return rng.choice(['é' * 20000, '{"text":"' + 'y' * 100000 + '"}', 'x' * 32767, 'x' * 32768])
         return ['', 'localhost', '{"text":"é世"}', 'x' * 200, 'play.example.org'][k % 5]
     if t == 'uuid':
         return str(uuidlib.UUID(bytes=bytes(rng.randrange(256) for _ in range(16))))
@@ -199,6 +201,92 @@ def run(ctx):
                 ctx.violation('release %d %s on a context that was used for other versions before: bytes %s, published %s'
                               % (v, name, got.hex()[:60], (rc.varint(len(ref_payload)) + ref_payload).hex()[:60]),
                               {'release': v, 'packet': name}, key={'release': v, 'packet': name, 'kind': 'reused-context'})
+    # long chat / disconnect / status texts at every release (always, not only when the generator draws them)
+    for v in rp.RELEASES:
+        if v in missing_rel:
+            continue
+        cx = ConnectionContext(protocol_version=v)
+        for name in ('chat_cb', 'disconnect_play', 'status_response', 'login_disconnect'):
+            if name not in rp.PYCRAFT_NAME:
+                continue
+            lay = rp.layout(name, v)
+            if lay is None or lay[0][1] != 'string':
+                continue
+            tab, clsname = rp.PYCRAFT_NAME[name]
+            cls = next((c for c in tabs[tab].get_packets(cx) if c.__name__ == clsname), None)
+            if cls is None:
+                continue
+            d = [(n, t) for f in cls.get_definition(cx) for n, t in f.items()]
+            for text in ('é' * 12000, 'x' * 40000):
+                vals = [text] + [gen(rng, t, 1) for _, t in lay[1:]]
+                payload = b''.join(ref_enc(t, x) for (_, t), x in zip(lay, vals))
+                q = cls(cx)
+                rb = PacketBuffer()
+                rb.send(payload)
+                rb.reset_cursor()
+                ctx.case(('long-text', v, name, len(text)))
+                try:
+                    q.read(rb)
+                    bad = None if getattr(q, d[0][0]) == text else 'decodes to a different text'
+                except Exception as e:
+                    bad = 'real reader raised %r' % (e,)
+                if bad:
+                    ctx.violation('release %d %s with a %d-byte text (published encoding): %s' % (v, name, len(text.encode()), bad),
+                                  {'release': v, 'packet': name, 'bytes': len(text.encode())},
+                                  key={'release': v, 'packet': name, 'kind': 'long-text'})
+    # a write that fails (a value that cannot be encoded, or the socket raising) must leave no trace in
+    # the NEXT packet written by the same thread
+    for v in rp.RELEASES:
+        if v in missing_rel:
+            continue
+        cx = ConnectionContext(protocol_version=v)
+        for fault in ('encode', 'send'):
+            for name in ('handshake', 'keep_alive_sb', 'teleport_confirm', 'chat_sb'):
+                if name not in rp.PYCRAFT_NAME or rp.layout(name, v) is None:
+                    continue
+                tab, clsname = rp.PYCRAFT_NAME[name]
+                cls = next((c for c in tabs[tab].get_packets(cx) if c.__name__ == clsname), None)
+                kacls = next((c for c in tabs['sbPlay'].get_packets(cx) if c.__name__ == 'KeepAlivePacket'), None)
+                if cls is None or kacls is None:
+                    continue
+                # 1. the failing write
+                bad_p = kacls(cx)
+                bad_p.keep_alive_id = 'not a number' if fault == 'encode' else 5
+
+                class Flaky(io.BytesIO):
+                    def send(self, b):
+                        raise BrokenPipeError(32, 'Broken pipe')
+                fs = Flaky() if fault == 'send' else io.BytesIO()
+                if fault != 'send':
+                    fs.send = fs.write
+                try:
+                    bad_p.write(fs)
+                    failed = False
+                except Exception:
+                    failed = True
+                # 2. the next packet
+                lay = rp.layout(name, v)
+                d = [(n, t) for f in cls.get_definition(cx) for n, t in f.items()]
+                vals = [gen(rng, t, 2 + i) for i, (_, t) in enumerate(lay)]
+                if any(isinstance(x, str) and len(x) > 1000 for x in vals):
+                    vals = [('s' if isinstance(x, str) else x) for x in vals]
+                ref_payload = rc.varint(rp.packet_id(name, v)) + b''.join(ref_enc(t, x) for (_, t), x in zip(lay, vals))
+                p = cls(cx)
+                for (n, _), x in zip(d, vals):
+                    setattr(p, n, x)
+                sock = io.BytesIO()
+                sock.send = sock.write
+                ctx.case(('after-failed-write', v, name, fault))
+                try:
+                    p.write(sock)
+                    got = sock.getvalue()
+                except Exception as e:
+                    got = repr(e).encode()
+                if failed and got != rc.varint(len(ref_payload)) + ref_payload:
+                    ctx.violation('release %d %s written after a write that failed (%s): bytes %s, published %s'
+                                  % (v, name, fault, got.hex()[:60], (rc.varint(len(ref_payload)) + ref_payload).hex()[:60]),
+                                  {'release': v, 'packet': name, 'fault': fault},
+                                  key={'release': v, 'packet': name, 'kind': 'after-failed-write', 'fault': fault})
     # a packet decoded from published bytes and written again must give the same bytes (what the keep-alive
     # echo relies on), in particular for 5-byte VarInts with the top bit set ("negative" ids)
     for v in rp.RELEASES:
